@@ -181,6 +181,27 @@ func (r *Run) NumViolations() int {
 	return len(r.viols)
 }
 
+// Known reports whether a violation with this signature is a recorded open finding (and notes that
+// it was observed, so that its KNOWN-FINDING line is printed).
+func (r *Run) Known(sig string) bool {
+	r.mu.Lock()
+	defer r.mu.Unlock()
+	for _, f := range r.findings {
+		if f.Status != "open" {
+			continue
+		}
+		re, err := regexp.Compile("^(?:" + f.Signature + ")$")
+		if err != nil {
+			continue
+		}
+		if re.MatchString(sig) {
+			r.known[f.Signature] = f
+			return true
+		}
+	}
+	return false
+}
+
 // Violate reports a violation. Known findings are recognised here.
 func (r *Run) Violate(v Violation) {
 	r.mu.Lock()
